@@ -79,6 +79,10 @@ func (g *progGen) ident() *enode {
 	case r < 11:
 		return &enode{kind: "ident", text: pick(g.cols)}
 	case r < 13 && len(g.bound) > 0:
+		if rng.Intn(4) == 0 {
+			// the QUOTED spelling of a bound name: a column, never the binding - also when the unquoted one follows
+			return &enode{kind: "ident", text: "`" + pick(g.bound) + "`"}
+		}
 		return &enode{kind: "ident", text: pick(g.bound)}
 	case r < 15 && !g.safeNames:
 		return &enode{kind: "ident", text: pick(oddNames[:12])}
@@ -1083,6 +1087,8 @@ func genCompileCases(tier string, emit func(op string, fields ...string)) {
 
 // compileCorpus: hand-written edge cases and minimised past failures, run first.
 var compileCorpus = []string{
+	"let n = 5; T | where `n` > n", "let n = 5; T | where `n` > 0 | extend y = n * 2", "let n = 2; T | sort by `n` asc | take n", "let k = 1; T | join (U) on $left.a == $right.a, `k` == k",
+	"T | where `p` != 0 | where Id == p", "T | summarize total = countif(`n` > n) by `n`", "let n = 5; T | where n < `n`", "T | where `null` == null and `true` == true",
 	"T | project $left", "T | project a, $right, b = 1", "T | join (U | project $right) on a", "T | extend $left = 1", "T | project $left = a", "T | summarize $right = count()",
 	"T | as $left", "T | take 5 | project a, $left", "T | join (U) on a | project a, $left", "let n = 1; T | project n, $left", "T | project `$left`", "T | summarize count() by $right = a",
 	"Sales | where In > 0 and By == 'x'", "States | project OR, IN", "IN | count", "let In = 5; States | take In", "States | summarize count() by Region, Or", "States | sort by AND desc nulls last, Region",
